@@ -432,6 +432,20 @@ Proof.
 Qed.
 End ObservationD.
 
+(** * Bounded time: above height 50 a liveness-check height comes within 10 blocks *)
+Theorem check_height_within_period_proof : forall h, Gen.C12.check_after < h ->
+  exists k, 0 <= k < Gen.C12.check_period /\ is_check_height (h + k) = true.
+Proof.
+  intros h Hh. unfold is_check_height.
+  change Gen.C12.check_after with 50 in *. change Gen.C12.check_period with 10.
+  exists ((10 - h mod 10) mod 10).
+  assert (A : 0 <= (10 - h mod 10) mod 10 < 10) by (apply Z.mod_pos_bound; lia).
+  split; [exact A|].
+  apply andb_true_iff. split; [apply Z.ltb_lt; lia|]. apply Z.eqb_eq.
+  rewrite Zplus_mod_idemp_r. replace (h + (10 - h mod 10)) with (h - h mod 10 + 1 * 10) by lia.
+  rewrite Z_mod_plus_full. rewrite Zminus_mod_idemp_r. rewrite Z.sub_diag. reflexivity.
+Qed.
+
 (** * The float64 share test of Keeper.Jail equals the model's integer test (Flocq) *)
 From Paloma Require Valset.JailShareFloat.
 
